@@ -2,6 +2,7 @@
 //! vmon — runtime monitors for risechain/revm. See /verif/DESIGN.md.
 //! Usage: vmon <ID> --tier quick|thorough --seed N [--jobs N] [--lane L] [--replay FILE] [--k v ...]
 
+mod eofgen;
 mod evmrun;
 mod fw;
 mod interp;
